@@ -91,3 +91,10 @@ CLAIMED['C05'] = dict(
   text='Held on every scenario executed: ~30 + (number of batches) scenarios per history, hundreds (quick) to thousands (thorough) of scenarios of which about half missed changes while disconnected; control-plane restarts in half of the histories with all clients reconnecting with retained state; re-opened types answered is implied by equality with the fresh state for every referenced name.',
   note=_XC_NOTE,
 )
+
+CLAIMED['C10'] = dict(
+  category='exploration',
+  technique='runtime monitoring / differential oracle: PRNG and exhaustive PeerAuthentication sets (mesh, namespace, workload, port level; all modes; tie stratum) are rendered into one FakeDiscoveryServer with ambient enabled; a 20-line reference precedence function is compared with three independent observations of the real output per (workload, port, protocol): the virtualInbound listener interpreted by an own filter-chain matcher, the EDS tlsMode marker plus the CDS transport-socket match, and the ambient security.Authorization policies interpreted for an unauthenticated and an authenticated peer',
+  text='Sidecar inbound and EDS legs held on every (workload, port) triple of every policy set executed (hundreds of sets quick, ~20k thorough; all five deciding levels and hundreds of precedence paths exercised; exhaustive stratum over modes per level). The ambient leg and the CDS best-effort inference disagree with the reference in the listed known-finding families (three named strata, empty-selector namespaces, equal-age ties, namespace-wide DISABLE); any ambient disagreement outside those strata keeps its full precedence path in the key and is reported.',
+  note='Trusted: the reference precedence function (oldest wins, name as documented tie-break), the filter-chain matcher, the workloadapi Authorization interpreter, the assumption that ztunnel ignores a referenced policy that was never sent. Worlds are static (no policy update after start). Not generated: gateways/waypoints, DestinationRule TLS, WorkloadEntry workloads, root-namespace policies with selectors.',
+)
